@@ -68,13 +68,19 @@ Definition sort_by {A} (lt : A -> A -> bool) (l : list A) : list A :=
 Fixpoint last_ts (l : samples) (d : Z) : Z :=
   match l with [] => d | (t, _) :: l' => last_ts l' t end.
 
+(* SliceSamples and SliceHistogram are one function here: a model stream holds either the float
+   samples or the native-histogram samples of a series (harness: ids 2s and 2s+1). Both search for
+   the first timestamp `> minTs`; the comparison operators are read from the source (Gen/C42.v) and
+   the model follows them: if either became `>=`, the sample at minTs would be kept *)
+Definition slice_keeps_equal : bool := SliceSamples_keeps_equal || SliceHistogram_keeps_equal.
+
 Fixpoint drop_le (l : samples) (m : Z) : samples :=
   match l with
   | [] => []
-  | (t, v) :: l' => if t <=? m then drop_le l' m else l
+  | (t, v) :: l' => if (if slice_keeps_equal then t <? m else t <=? m) then drop_le l' m else l
   end.
 
-(* SliceSamples (sort.Search on ascending timestamps = drop the prefix <= minTs) *)
+(* SliceSamples / SliceHistogram (sort.Search on ascending timestamps = drop the prefix <= minTs) *)
 Definition slice_samples (l : samples) (m : Z) : samples :=
   match l with
   | [] => l
